@@ -24,15 +24,50 @@ func (C10) Plan(tier string) core.Plan {
 
 func (C10) Info() core.Info {
 	return core.Info{
-		Rule: "general worlds (planned and random, all label features, cycles, generators) in which a Convert(T, args) and a Call of a simulator-made identity target func(T) T with the same options are run in one history (both orders), T concrete or interface, under the same seeded schedule; some providers return a nil struct pointer on every execution so that the converted value is the zero value of T. Oracle: on worlds in the stable classes of C05 (outcome independent of iteration order) Convert returns (v,nil) iff the Call succeeds; always: a returned value is assignable to T, its provenance PERMIT-matches a type-only parameter (T,\"\"), on failure the value is nil and the error non-nil; when the target's parameter resolution is unique (no converter involved, one candidate supply) both deliver the same token. Non-trivial: >=1 converter; distinct = distinct (world shape, event-log hash)",
+		Rule:        "general worlds (planned and random, all label features, cycles, generators) in which a Convert(T, args) and a Call of a simulator-made identity target func(T) T with the same options are run in one history (both orders), T concrete or interface, under the same seeded schedule; some providers return a nil struct pointer on every execution so that the converted value is the zero value of T. Oracle: on worlds in the stable classes of C05 (outcome independent of iteration order) Convert returns (v,nil) iff the Call succeeds; always: a returned value is assignable to T, its provenance PERMIT-matches a type-only parameter (T,\"\"), on failure the value is nil and the error non-nil; when the target's parameter resolution is unique (no converter involved, one candidate supply) both deliver the same token. A twelfth of the histories convert to a pool type and then, from disjoint options, to its twin: a distinct Go type that prints the same. Non-trivial: >=1 converter; distinct = distinct (world shape, event-log hash)",
 		Assumptions: []string{"equivalence is asserted only on C05-stable worlds so that a legitimate difference in how many S1 choices the two entry points consume cannot be mistaken for disagreement"},
-		Probes:      []string{"c10_pairs", "c10_both_ok", "c10_both_fail", "c10_iface_target", "c10_value_checked", "c10_zero_value_converted", "s1_nonidentity_perms"},
+		Probes:      []string{"c10_pairs", "c10_both_ok", "c10_both_fail", "c10_iface_target", "c10_value_checked", "c10_zero_value_converted", "c10_twin_type_pairs", "s1_nonidentity_perms"},
 		Real:        realComponents,
 		Simulated:   simComponents,
 	}
 }
 
+// genTwinHistory: Call/Convert to pool type T0, then Call/Convert to its twin
+// (a distinct type that prints the same), each from its own supplied value
+// through its own converter; the two pairs share no type.
+func genTwinHistory(r *simrt.RNG) world.World {
+	lt := func(t int) world.Slot { return world.Slot{Label: world.Label{Type: t}} }
+	var w world.World
+	mk := func(tgtT, srcT int) (int, []int) {
+		w.Parties = append(w.Parties, world.Party{InForm: world.FormPositional, OutForm: world.FormPositional, In: []world.Slot{lt(tgtT)}})
+		tgt := len(w.Parties) - 1
+		w.Parties = append(w.Parties, world.Party{InForm: world.FormPositional, OutForm: world.FormPositional, In: []world.Slot{lt(srcT)}, Out: []world.Slot{lt(tgtT)}, HasErr: r.Bool()})
+		w.Args = append(w.Args, world.ArgSpec{Kind: []string{world.ArgConv, world.ArgConvFunc}[r.Intn(2)], Party: len(w.Parties) - 1})
+		w.Args = append(w.Args, world.ArgSpec{Kind: world.ArgTyped, Label: world.Label{Type: srcT}})
+		return tgt, []int{len(w.Args) - 2, len(w.Args) - 1}
+	}
+	a, b := 0, world.TwinBase
+	sa, sb := 1, world.TwinBase+1
+	if r.Bool() {
+		a, b, sa, sb = b, a, sb, sa
+	}
+	for _, pr := range [][2]int{{a, sa}, {b, sb}} {
+		tgt, args := mk(pr[0], pr[1])
+		call := world.Op{Kind: world.OpCall, Target: tgt, Args: args}
+		conv := world.Op{Kind: world.OpConvert, Type: pr[0], Args: args}
+		if r.Bool() {
+			w.Ops = append(w.Ops, call, conv)
+		} else {
+			w.Ops = append(w.Ops, conv, call)
+		}
+	}
+	return w
+}
+
 func (C10) Gen(r *simrt.RNG, tier string) core.Case {
+	if r.Chance(1, 12) {
+		return RCase{W: genTwinHistory(r)}
+	}
 	cfg := world.SwarmCfg(r)
 	cfg.MaxParams = 1
 	var w world.World
@@ -78,36 +113,46 @@ func (C10) Gen(r *simrt.RNG, tier string) core.Case {
 	return RCase{W: w}
 }
 
+// c10Pairs splits the history into (call, convert) pairs with identical
+// options and one type-only parameter of the converted type.
+func c10Pairs(w world.World) ([][2]int, bool) {
+	if len(w.Ops) == 0 || len(w.Ops)%2 != 0 {
+		return nil, false
+	}
+	var pairs [][2]int
+	for i := 0; i < len(w.Ops); i += 2 {
+		ci, vi := i, i+1
+		if w.Ops[ci].Kind == world.OpConvert {
+			ci, vi = vi, ci
+		}
+		call, conv := w.Ops[ci], w.Ops[vi]
+		if call.Kind != world.OpCall || conv.Kind != world.OpConvert {
+			return nil, false
+		}
+		t := w.Parties[call.Target]
+		if len(t.In) != 1 || t.In[0].Name != "" || t.In[0].Sub != "" || t.In[0].Type != conv.Type || len(t.Defaults) != 0 || t.InForm != world.FormPositional {
+			return nil, false
+		}
+		if len(call.Args) != len(conv.Args) {
+			return nil, false
+		}
+		for k := range call.Args {
+			if call.Args[k] != conv.Args[k] {
+				return nil, false
+			}
+		}
+		pairs = append(pairs, [2]int{ci, vi})
+	}
+	return pairs, true
+}
+
 func c10Valid(w world.World) bool {
-	if len(w.Ops) != 2 {
+	pairs, ok := c10Pairs(w)
+	if !ok {
 		return false
 	}
 	for _, f := range w.Faults {
 		if f.Kind != "nil_struct" || f.Nth != 0 {
-			return false
-		}
-	}
-	var call, conv *world.Op
-	for i := range w.Ops {
-		switch w.Ops[i].Kind {
-		case world.OpCall:
-			call = &w.Ops[i]
-		case world.OpConvert:
-			conv = &w.Ops[i]
-		}
-	}
-	if call == nil || conv == nil {
-		return false
-	}
-	t := w.Parties[call.Target]
-	if len(t.In) != 1 || t.In[0].Name != "" || t.In[0].Sub != "" || t.In[0].Type != conv.Type || len(t.Defaults) != 0 || t.InForm != world.FormPositional {
-		return false
-	}
-	if len(call.Args) != len(conv.Args) {
-		return false
-	}
-	for i := range call.Args {
-		if call.Args[i] != conv.Args[i] {
 			return false
 		}
 	}
@@ -126,6 +171,45 @@ func c10Valid(w world.World) bool {
 			return false
 		}
 	}
+	// twin types never meet their namesakes within one operation
+	for _, pr := range pairs {
+		seen := map[string]int{}
+		note := func(t int) bool {
+			n := world.TypeName(t)
+			if o, ok := seen[n]; ok && o != t {
+				return false
+			}
+			seen[n] = t
+			return true
+		}
+		call := w.Ops[pr[0]]
+		for _, s := range w.Parties[call.Target].In {
+			if !note(s.Type) {
+				return false
+			}
+		}
+		for _, ai := range call.Args {
+			a := w.Args[ai]
+			switch a.Kind {
+			case world.ArgNamed, world.ArgTyped:
+				if !note(a.Label.Type) {
+					return false
+				}
+			case world.ArgConv, world.ArgConvFunc:
+				for _, s := range append(append([]world.Slot{}, w.Parties[a.Party].In...), w.Parties[a.Party].Out...) {
+					if !note(s.Type) {
+						return false
+					}
+				}
+			case world.ArgGen:
+				for _, s := range append(append([]world.Slot{}, w.Parties[a.Gen.Party].In...), w.Parties[a.Gen.Party].Out...) {
+					if !note(s.Type) {
+						return false
+					}
+				}
+			}
+		}
+	}
 	return true
 }
 
@@ -139,17 +223,7 @@ func (C10) Run(c core.Case, ctx *core.Ctx) []core.Violation {
 		return nil
 	}
 	sh := world.ShapeHash(w)
-	ci, vi := 0, 1
-	if w.Ops[0].Kind == world.OpConvert {
-		ci, vi = 1, 0
-	}
-	ty := w.Ops[vi].Type
-	// stability class of the world, judged on the call alone
-	w1 := w.Clone()
-	w1.Ops = []world.Op{w.Ops[ci]}
-	w1.Faults = nil
-	stable := c05Class(&w1) != ""
-	view := model.ViewOf(&w, ci)
+	pairs, _ := c10Pairs(w)
 	var out []core.Violation
 	add := func(class, detail string) {
 		out = append(out, core.Violation{Class: class, Site: "Convert", Detail: detail})
@@ -161,50 +235,67 @@ func (C10) Run(c core.Case, ctx *core.Ctx) []core.Violation {
 			finish(ctx, rt, sim)
 			return nil
 		}
-		ctx.St.Inc("c10_pairs")
-		if world.IsIface(ty) {
-			ctx.St.Inc("c10_iface_target")
-		}
-		cr, vr := rt.Results[ci], rt.Results[vi]
-		if !cr.Returned || !vr.Returned {
-			ctx.St.Inc("cross_c06_panic_or_divergence")
-			finish(ctx, rt, sim)
-			continue
-		}
-		if vr.Err == nil {
-			if vr.ConvNil && world.IsIface(ty) && rt.FaultsFired["nil_struct"] > 0 {
-				// the zero value of an interface type is the nil interface
-				ctx.St.Inc("c10_zero_value_converted")
-			} else if vr.ConvNil || len(vr.Outs) != 1 {
-				add("convert-returned-nil-value-without-error", "Convert returned (nil, nil)")
-			} else {
-				ctx.St.Inc("c10_value_checked")
-				id := vr.Outs[0]
-				if !world.Implements(vr.OutDyn[0], ty) {
-					add("convert-value-not-assignable", fmt.Sprintf("value of type %s is not assignable to %s", world.TypeName(vr.OutDyn[0]), world.TypeName(ty)))
-				}
-				if id == 0 && rt.FaultsFired["nil_struct"] > 0 {
+		nconv := 0
+		for pn, pr := range pairs {
+			ci, vi := pr[0], pr[1]
+			ty := w.Ops[vi].Type
+			w1 := w.Clone()
+			w1.Ops = []world.Op{w.Ops[ci]}
+			w1.Faults = nil
+			stable := c05Class(&w1) != ""
+			view := model.ViewOf(&w, ci)
+			nconv += len(view.Convs) + len(view.GenParties)
+			ctx.St.Inc("c10_pairs")
+			if world.IsIface(ty) {
+				ctx.St.Inc("c10_iface_target")
+			}
+			if pn > 0 && ty >= world.TwinBase || pn > 0 && w.Ops[pairs[0][1]].Type >= world.TwinBase {
+				ctx.St.Inc("c10_twin_type_pairs")
+			}
+			cr, vr := rt.Results[ci], rt.Results[vi]
+			if cr.Returned && cr.Err == nil && !vr.Returned {
+				add("convert-disagrees-with-call", fmt.Sprintf("schedule %d: Call of func(%s) succeeds, Convert did not return: %s", k, world.TypeName(ty), trunc(vr.PanicDetail)))
+				continue
+			}
+			if !cr.Returned || !vr.Returned {
+				ctx.St.Inc("cross_c06_panic_or_divergence")
+				continue
+			}
+			if vr.Err == nil {
+				if vr.ConvNil && world.IsIface(ty) && rt.FaultsFired["nil_struct"] > 0 {
+					// the zero value of an interface type is the nil interface
 					ctx.St.Inc("c10_zero_value_converted")
-				} else if id == 0 || id >= uint64(len(rt.Tokens)) {
-					add("convert-invented-value", fmt.Sprintf("Convert returned token %d", id))
-				} else if tk := rt.Tokens[id]; !model.Permit(tk.Label, world.Label{Type: ty}) {
-					add("convert-mislabelled-value", fmt.Sprintf("Convert(%s) returned a value labelled %s", world.TypeName(ty), tk.Label))
+				} else if vr.ConvNil || len(vr.Outs) != 1 {
+					add("convert-returned-nil-value-without-error", "Convert returned (nil, nil)")
+				} else {
+					ctx.St.Inc("c10_value_checked")
+					id := vr.Outs[0]
+					if !world.Implements(vr.OutDyn[0], ty) {
+						add("convert-value-not-assignable", fmt.Sprintf("value of type %s is not assignable to %s", world.TypeName(vr.OutDyn[0]), world.TypeName(ty)))
+					}
+					if id == 0 && rt.FaultsFired["nil_struct"] > 0 {
+						ctx.St.Inc("c10_zero_value_converted")
+					} else if id == 0 || id >= uint64(len(rt.Tokens)) {
+						add("convert-invented-value", fmt.Sprintf("Convert returned token %d", id))
+					} else if tk := rt.Tokens[id]; !model.Permit(tk.Label, world.Label{Type: ty}) {
+						add("convert-mislabelled-value", fmt.Sprintf("Convert(%s) returned a value labelled %s", world.TypeName(ty), tk.Label))
+					}
+				}
+			} else if !vr.ConvNil {
+				add("convert-returned-value-with-error", "Convert returned a non-nil value together with an error")
+			}
+			if stable {
+				switch {
+				case (cr.Err == nil) != (vr.Err == nil):
+					add("convert-disagrees-with-call", fmt.Sprintf("schedule %d: Call of func(%s) %s -> err=%v, Convert -> err=%v", k, world.TypeName(ty), world.TypeName(ty), errStr(cr.Err), errStr(vr.Err)))
+				case cr.Err == nil:
+					ctx.St.Inc("c10_both_ok")
+				default:
+					ctx.St.Inc("c10_both_fail")
 				}
 			}
-		} else if !vr.ConvNil {
-			add("convert-returned-value-with-error", "Convert returned a non-nil value together with an error")
 		}
-		if stable {
-			switch {
-			case (cr.Err == nil) != (vr.Err == nil):
-				add("convert-disagrees-with-call", fmt.Sprintf("schedule %d: Call of func(%s) %s -> err=%v, Convert -> err=%v", k, world.TypeName(ty), world.TypeName(ty), errStr(cr.Err), errStr(vr.Err)))
-			case cr.Err == nil:
-				ctx.St.Inc("c10_both_ok")
-			default:
-				ctx.St.Inc("c10_both_fail")
-			}
-		}
-		if len(view.Convs)+len(view.GenParties) > 0 {
+		if nconv > 0 {
 			ctx.MarkNontrivial(sh, sim)
 		}
 		finish(ctx, rt, sim)
